@@ -163,7 +163,7 @@ def specs(tier: str):
         add("sc_two_spawners", 0, hasprimary=True, backend="thread")
         add("sc_two_spawners", 0, hasprimary=False, backend="thread")
         for sp in out[-5:]:
-            sp["timeout"] = 7200
+            sp["timeout"] = 4500
         for hp in (True, False):
             for be in ("thread", "main_thread_only"):
                 add("sc_shutdown_race", 0, hasprimary=hp, backend=be, ntasks=2)
